@@ -319,11 +319,11 @@ fn sweep_rc(r: &ResourceCert) -> usize {
 }
 
 fn sweep_crl(c: &Crl, ctx: &Ctx) -> usize {
-    let _ = (c.this_update(), c.next_update(), c.crl_number(), c.authority_key_identifier(), c.is_stale(), c.signature());
+    let _ = (c.this_update(), c.next_update(), c.crl_number(), format!("{} {:?}", c.crl_number(), c.crl_number()), c.authority_key_identifier(), c.is_stale(), c.signature());
     let mut n = 8;
     let mut serials = vec![Serial::from(3u64), Serial::from(0x80u64), Serial::from(1u64)];
     for e in c.revoked_certs().iter() {
-        let _ = (e.user_certificate, e.revocation_date);
+        let _ = (e.user_certificate, e.revocation_date, format!("{}", e.user_certificate), String::from(e.user_certificate));
         if serials.len() < 40 { serials.push(e.user_certificate); }
         n += 1;
     }
@@ -343,7 +343,7 @@ fn sweep_sigobj_cert(c: &Cert, ctx: &Ctx) -> usize {
 
 fn sweep_manifest(m: &Manifest, ctx: &Ctx) -> usize {
     let c = m.content();
-    let _ = (c.manifest_number(), c.this_update(), c.next_update(), c.file_hash_alg(), c.len(), c.is_empty(), c.is_stale());
+    let _ = (c.manifest_number(), format!("{}", c.manifest_number()), c.this_update(), c.next_update(), c.file_hash_alg(), c.len(), c.is_empty(), c.is_stale());
     let mut n = 8;
     for f in c.iter() { let _ = (f.file().len(), f.hash().len()); n += 1; }
     for base in ["rsync://h/m/", "rsync://h/m/dir/sub/", "rsync://h/m/x"] {
@@ -426,7 +426,7 @@ fn sweep_key(k: &PublicKey) -> usize {
 }
 
 fn sweep_idcert(c: &IdCert, ctx: &Ctx) -> usize {
-    let _ = (c.serial_number(), c.subject_key_identifier(), c.subject_key_id(), c.authority_key_id(), c.validity(), format!("{:?}", c.subject()));
+    let _ = (c.serial_number(), format!("{}", c.serial_number()), c.subject_key_identifier(), c.subject_key_id(), c.authority_key_id(), c.validity(), format!("{:?}", c.subject()));
     let n = 8 + sweep_key(c.public_key());
     reenc("IdCert::to_captured", || (c.to_captured(), c.to_bytes()));
     let _ = c.validate_ta_at(ctx.now);
